@@ -110,3 +110,19 @@ Proof.
 Qed.
 Lemma wf_is_pkt_hdr l : Iso.wf_lpkt l -> is_pkt (Iso.ser_pkt l) /\ Iso.hdr_of (Iso.ser_pkt l) = Iso.lh l.
 Proof. intros W. split; [apply wf_is_pkt | apply wf_hdr_of]; exact W. Qed.
+
+(* PESHeader: the payload, when PUSI is set and it starts with the PES start code prefix 00 00 01 *)
+Definition pes_start (pay : bytes) : bool :=
+  (3 <? len pay) && (nthN pay 0 =? 0) && (nthN pay 1 =? 0) && (nthN pay 2 =? 1).
+Lemma pes_header l : Iso.wf_lpkt l -> let p := Iso.ser_pkt l in
+  (carries_payload l -> PESHeader p =
+     if (Iso.pusi (Iso.lh l) =? 1) && pes_start (Iso.lpayload l) then Ok (Iso.lpayload l) else Err E.NoPayload) /\
+  (Iso.afc (Iso.lh l) = 2 -> PESHeader p = Err E.NoPayload).
+Proof.
+  intros W p. destruct (partition l W) as (_ & P1 & P2). fold p in P1, P2.
+  destruct (byte1_facts p (wf_is_pkt l W)) as (_ & _ & PU & _). unfold p in PU. rewrite (wf_hdr_of l W) in PU. fold p in PU.
+  unfold PESHeader. rewrite PU. split.
+  - intros CP. destruct (P1 CP) as [-> _]. cbn [bind]. fold (pes_start (Iso.lpayload l)).
+    destruct (Iso.pusi (Iso.lh l) =? 1); cbn [andb]; reflexivity.
+  - intros A2. destruct (P2 A2) as [-> _]. cbn [bind]. destruct (Iso.pusi (Iso.lh l) =? 1); reflexivity.
+Qed.
